@@ -100,11 +100,11 @@ def quiescent (s : σ) (pend : Pend P) : Bool :=
 def candidates (s : σ) (pend : Pend P) : List (Nat × σ × P) :=
   pend.flatMap fun x => (sem.micro s x.2).map fun r => (x.1, r.1, r.2)
 
-/-- Returns the final abstract state of some explaining interleaving. -/
-def search (quiesce : Bool) : Nat → Memo K → σ → Pend P → List (Event Op Out) → Option σ × Memo K
+/-- Returns the final abstract state (and the operations still pending) of some explaining interleaving. -/
+def search (quiesce : Bool) : Nat → Memo K → σ → Pend P → List (Event Op Out) → Option (σ × Pend P) × Memo K
   | 0, m, _, _, _ => (none, m)
   | fuel + 1, m, s, pend, [] =>
-    if !quiesce || quiescent sem s pend then (some s, m)
+    if !quiesce || quiescent sem s pend then (some (s, pend), m)
     else if m.contains 0 (sem.key s pend) then (none, m)
     else
       match firstSomeM (fun (c : Nat × σ × P) m => search quiesce fuel m c.2.1 (setP c.1 c.2.2 pend) [])
